@@ -109,3 +109,33 @@ Lemma candidates_in p m s u :
 Proof.
   unfold candidates. rewrite filter_In. cbn. rewrite andb_true_iff, Z.eqb_eq. tauto.
 Qed.
+
+(* a writer that never fails keeps never failing *)
+Lemma step_wb_none st o st' out r : wb st = None -> tstep st o = (st', out, r) -> wb st' = None.
+Proof.
+  intros Hwb. destruct o as [l c|ev now|t|t]; cbn [tstep].
+  - unfold remote_login. destruct (negb (validate l)); [intros [= <- _ _]; exact Hwb|].
+    destruct (pick c (candidates (l_pid l) (sess st))) as [[s u]|].
+    + rewrite Hwb, write_all_none. destruct (has_disp (u_cached u)); intros [= <- _ _]; reflexivity.
+    + intros [= <- _ _]. exact Hwb.
+  - unfold audit_event. destruct (a_ses ev) as [| |s]; try (intros [= <- _ _]; exact Hwb).
+    destruct (aget N.eqb s (sess st)) as [u|].
+    + unfold audit_with_session. destruct (u_login u) as [l|].
+      * rewrite Hwb, write_all_none. cbn [write1]. intros [= <- _ _]. reflexivity.
+      * intros [= <- _ _]. exact Hwb.
+    + unfold audit_without_session. destruct (negb (is_login (a_type ev))); [intros [= <- _ _]; exact Hwb|].
+      destruct (a_pid ev) as [q|]; [|intros [= <- _ _]; exact Hwb].
+      destruct (aget Z.eqb q (parked st)) as [l|].
+      * rewrite Hwb. cbn [write1]. intros [= <- _ _]. reflexivity.
+      * intros [= <- _ _]. exact Hwb.
+  - intros [= <- _ _]. exact Hwb.
+  - intros [= <- _ _]. exact Hwb.
+Qed.
+
+Lemma trun_wb_none st h st' out : wb st = None -> trun st h = (st', out) -> wb st' = None.
+Proof.
+  revert st st' out. induction h as [|o r IH]; intros st st' out Hw E; cbn in E.
+  - injection E as <- _. exact Hw.
+  - destruct (tstep st o) as [[st1 o1] res] eqn:Es. destruct (trun st1 r) as [st2 o2] eqn:Er.
+    injection E as <- _. eapply IH; [|exact Er]. eapply step_wb_none; eauto.
+Qed.
